@@ -49,8 +49,11 @@ CLAIMED = {
  "C13": dict(text="Coq theorem lazy_eq_eager (C13/Props.v): for every well-formed pipeline of HeadRows / EncodeRows / DropRows (by position and name) / LabelRows.feats stages and every dense row, iteration, "
                   "length, positional access, header-name access and .headers of the lazy view (a record of access functions built exactly as the wrapper classes build them) equal the eager list computation - "
                   "a representation invariant proved stage by stage, by induction over the pipeline; feats/label split; load-once rows are transparent under any access sequence. "
-                  "The model's views are compared with the real classes on generated tables, pipelines and shuffled access sequences (incl. partial iteration); an eager oracle also covers sparse rows and lazy ARFF rows.",
-            note="Trusted: Coq kernel, extraction+driver, harness. Sparse wrappers, LazySparse/LazyDense missing-value handling, EncodeCatRows and row predicates are oracle-only (no theorem); the model's encoders are a four-constructor family; "
+                  "Sparse rows (sparse_views_are_dictionaries, sparse_stage_semantics): every stack of EncodeSparse / DropSparse / HeadSparse / LabelSparse wrappers over a dict reads like ONE dictionary - keys() without repeats, "
+                  "__getitem__ defined exactly on keys(), items() exactly the graph of __getitem__ with each key once, len() the number of keys - and each stage is the eager dict operation (encode with the not-sparse default, drop, rename, "
+                  "label default 0; feats never hold the label key). Both models' views are compared with the real classes on generated tables, pipelines and shuffled access sequences (incl. partial iteration); "
+                  "an eager oracle also covers LazySparse/LazyDense rows as the ARFF reader builds them.",
+            note="Trusted: Coq kernel, extraction+driver, harness. LazySparse/LazyDense missing-value handling, EncodeCatRows and row predicates are oracle-only (no theorem); the model's encoders are a four-constructor family and the sparse model's header maps are the renamings k -> k+shift; "
                  "keys outside the eager table (negative positions, dropped names) are outside the property.",
             technique="Coq proof (representation invariant over access-function records) + extracted-model correspondence + eager oracle", design="§5 C13"),
  "C14": dict(text="Coq theorems (C14/Props.v): the action set is the sorted set of distinct labels (sorted, duplicate-free, exactly the labels of the data); classification reward is 1 at the label and 0 elsewhere, the label is offered, "
